@@ -35,7 +35,8 @@ def one_input(args):
     seed, idx, workroot = args
     rng = random.Random(seed * 92821 + idx)
     inp = pipecases.make_input(rng, n_refs=3, n_qry=9, ref_labels=(60, 130), small_ids=(idx % 2 == 1),
-                               kinds=["split", "noisy", "split", "mirror", "dropped", "chimeric", "partial", "exact", "junk"])
+                               kinds=["split", "noisy", "split", "mirror", "dropped", "chimeric", "partial", "exact", "junk"],
+                               short_contigs=1)    # + a contig shorter than most molecules, with a molecule of its own
     extra = pipe_common.PARAM_VECTORS[idx % len(pipe_common.PARAM_VECTORS)]
     mode = ["all", "best", "joined", "separate", "best"][idx % 5]
     wd = os.path.join(workroot, f"c10-{os.getpid()}-{idx}")
@@ -84,7 +85,7 @@ def one_input(args):
         lines.append({"with": files3(v4), "without": files3(v5)})
         tags.append({"input": idx, "mode": mode, "variant": "-qId/-rId vs restricted files", "qsel": qsel, "rsel": rsel})
         # V6: one query all alone (a plain one and the last one): runs in which no molecule has a second-pass alignment
-        for solo in (qids[1], qids[-2]):
+        for solo in (qids[1], qids[-2], qids[-1]):
             rp6, qp6 = pipecases.write_input(wd, inp, f"v6_{solo}", qsel={solo})
             v6 = pipecases.run_once(wd, rp6, qp6, f"v6_{solo}", mode, extra)
             status[f"alone_{solo}"] = v6["status"]
@@ -99,7 +100,7 @@ def run(ctx: Ctx):
     quick = ctx.tier == "quick"
     ctx.rule = ("generated inputs (3 references, 9 queries of all kinds) in one of the four modes with one of 8 parameter "
                 "vectors; per input 8 runs: full, two queries removed and the rest reordered, rows of both CMAP files "
-                "shuffled, references reordered, -qId/-rId selection, physically restricted files, two single-query runs; TLC compares the "
+                "shuffled, references reordered, -qId/-rId selection, physically restricted files, three single-query runs (one of them the molecule of a contig that is shorter than the other molecules); TLC compares the "
                 "records of the queries present in both runs. non-trivial = distinct (input, variant) comparison in "
                 "which at least one record exists")
     ctx.assumptions = ["no two references give exactly equal seed scores for a query (ties between references would "
